@@ -653,6 +653,12 @@ func (e *Exec) buildCtx(blk *Block) *BuildCtx {
 			}
 			return 0, false
 		},
+		DidDoc: func(d string) *didtypes.DIDDocument {
+			if en := e.Model.Did[d]; en != nil && !en.Tomb {
+				return en.Doc
+			}
+			return nil
+		},
 		Built: func(tx, msg int) sdk.Msg {
 			ms := e.BuiltMsgs[tx]
 			if msg >= 0 && msg < len(ms) {
@@ -1291,11 +1297,8 @@ func (e *Exec) judgeTx(p *pendingTx, bt *BuiltTx, pred *prediction, accepted boo
 		if d := DiffFlat(want, ex.Flat, sec, 4); len(d) > 0 {
 			key := strings.SplitN(d[0], " ", 3)[1]
 			prop := propOfSection(key)
-			if prop == "C03" && strings.Contains(d[0], "seq=") {
-				prop = "C04"
-				if !sameExceptSeq(d[0]) {
-					prop = "C03"
-				}
+			if fd := DiffFlatFull(want, ex.Flat, sec, 1); prop == "C03" && len(fd) == 1 && onlySeqDiffers(fd[0]) {
+				prop = "C04" // same document, wrong sequence
 			}
 			if sec == "pnft/" && pred.AltDenom != "" {
 				prop = "C12"
@@ -1340,16 +1343,9 @@ func (e *Exec) judgeTx(p *pendingTx, bt *BuiltTx, pred *prediction, accepted boo
 	}
 }
 
-func sameExceptSeq(diffLine string) bool {
-	// "differs did/<k>: want doc=..;seq=A got doc=..;seq=B" -> same doc part?
-	i := strings.Index(diffLine, ": want ")
-	j := strings.Index(diffLine, " got ")
-	if i < 0 || j < 0 {
-		return false
-	}
-	w, g := diffLine[i+7:j], diffLine[j+5:]
-	ws, gs := strings.SplitN(w, ";seq=", 2), strings.SplitN(g, ";seq=", 2)
-	return len(ws) == 2 && len(gs) == 2 && ws[0] == gs[0]
+func onlySeqDiffers(d FlatDiff) bool {
+	ws, gs := strings.SplitN(d.Want, ";seq=", 2), strings.SplitN(d.Got, ";seq=", 2)
+	return len(ws) == 2 && len(gs) == 2 && ws[0] == gs[0] && ws[1] != gs[1]
 }
 
 func (s *Script) stepTx(id int) (*TxSpec, bool) {
